@@ -233,6 +233,23 @@ def sharedInserts (rs : Rows α) : List (Bool × Nat) → List α → Rows α ×
     let rest := sharedInserts r.1 steps r.2.2
     (rest.1, r.2.1 :: rest.2.1, rest.2.2)
 
+/-! ### the text of a list of rows -/
+
+/-- the pieces of one row: every cell rendered, `", "` between cells -/
+def rowTokens (sh : α → String) (rs : Rows α) (i : Nat) : List String :=
+  ((List.range (ncols rs)).filterMap fun j =>
+    (cell rs i j).map fun x => sh x :: (if j < ncols rs - 1 then [", "] else [])).flatten
+
+/-- the pieces of the text: `[ `, the rows (indented by two spaces after the first, separated by
+    newlines), ` ]` -/
+def displayTokens (sh : α → String) (rs : Rows α) : List String :=
+  "[ " :: ((List.range (nrows rs)).map fun i =>
+      (if 0 < i then ["  "] else []) ++ rowTokens sh rs i ++
+        (if i < nrows rs - 1 then ["\n"] else [])).flatten ++ [" ]"]
+
+/-- `Display`: e.g. `[ 1, 2\n  3, 4 ]` -/
+def display (sh : α → String) (rs : Rows α) : String := String.join (displayTokens sh rs)
+
 /-! ### constructors -/
 
 /-- the square list of rows with `values` on the diagonal and `zero` elsewhere -/
